@@ -110,8 +110,13 @@ def check_program(ctx, rng, home):
     g = pbgen.Gen(rng, home)
     tree = g.program()
     mark_alternatives(tree)
-    text = om.render(tree, rng, layout=rng.choice(('canonical', 'canonical', 'random')), case='lower')
+    text = om.render(tree, rng, layout=rng.choice(('canonical', 'canonical', 'random')), case=rng.choice(('lower', 'lower', 'lower', 'upper', 'capital', 'random')))
     m, inst, gen = translate(ctx, text, home)
+    for n in tree.walk():
+        # the keyword self is recorded as spelled in the source; the generated text spells it in lower case
+        for k, v in list(n.fields.items()):
+            if isinstance(v, str) and v.lower() == 'self':
+                n.fields[k] = 'self'
     for n in tree.walk():
         ctx.hit('Construct.' + n.cls)
         if n.cls in ('FunctionInvocationNode', 'ImplicitInvocationNode', 'InstanceInvocationNode'):
